@@ -21,6 +21,7 @@ import inspect
 import json
 import math
 import os
+import re
 import sys
 from pathlib import Path
 
@@ -121,9 +122,22 @@ def lean_str(s: str) -> str:
 
 
 class Writer:
+    """emits definitions; `rec` keeps every emitted value under its namespace-qualified name (what the code says now);
+    `pin` (VERIF_PIN_FILE) replaces the values of the listed names by pinned ones (see harness/pin_soft.py, core.prepare)"""
+
     def __init__(self):
         self.lines: list[str] = []
         self.fp: dict = {}
+        self.rec: dict = {}
+        self.pin: dict = {}
+        pf = os.environ.get("VERIF_PIN_FILE")
+        if pf and os.path.exists(pf):
+            self.pin = json.loads(Path(pf).read_text()).get("soft", {})
+
+    def _q(self, name, v):
+        key = f"{getattr(self, 'open_ns', None) or '_'}.{name}"
+        self.rec[key] = v
+        return self.pin.get(key, v)
 
     def ns(self, name):
         self.close_open()            # sections are sequential: a section that failed half-way must not swallow the next ones
@@ -140,30 +154,39 @@ class Writer:
             self.open_ns = None
 
     def nat(self, name, v, key=None):
+        v = self._q(name, int(v))
         self.lines.append(f"def {name} : Nat := {int(v)}")
         self.fp[key or name] = int(v)
 
     def int(self, name, v, key=None):
+        v = self._q(name, int(v))
         self.lines.append(f"def {name} : Int := {int(v)}")
         self.fp[key or name] = int(v)
 
     def bytes(self, name, v: bytes, key=None):
+        v = bytes.fromhex(self._q(name, v.hex()))
         self.lines.append(f"def {name} : List UInt8 := {lean_bytes(v)}")
         self.fp[key or name] = v.hex()
 
     def natlist(self, name, vs, key=None):
+        vs = self._q(name, [int(v) for v in vs])
         self.lines.append(f"def {name} : List Nat := [{', '.join(str(int(v)) for v in vs)}]")
         self.fp[key or name] = [int(v) for v in vs]
 
     def strlist(self, name, vs, key=None):
+        vs = self._q(name, list(vs))
         self.lines.append(f"def {name} : List String := [{', '.join(lean_str(v) for v in vs)}]")
         self.fp[key or name] = list(vs)
 
     def string(self, name, v, key=None):
+        v = self._q(name, v)
         self.lines.append(f"def {name} : String := {lean_str(v)}")
         self.fp[key or name] = v
 
     def raw(self, line):
+        m = re.match(r"\s*(?:@\[[^\]]*\]\s*)?def\s+(\S+)", line)
+        if m:
+            line = self._q(m.group(1), line)
         self.lines.append(line)
 
     def struct(self, prefix, st, fields):
@@ -242,11 +265,15 @@ def regex_to_lean(pattern) -> str:
 
 def ast_string_lists(mod, qualname):
     """all list/tuple literals consisting only of str (or bytes) constants inside a function, in source order"""
+    return _ast_string_lists(mod, qualname)
+
+
+def _ast_string_lists(mod, qualname):
     import textwrap
     obj = mod
     for part in qualname.split("."):
         obj = getattr(obj, part)
-    tree = ast.parse(textwrap.dedent(inspect.getsource(obj)))
+    tree = _body_ast(textwrap.dedent(inspect.getsource(obj)))
     out = []
     for n in ast.walk(tree):
         if isinstance(n, (ast.List, ast.Tuple)) and n.elts and all(isinstance(e, ast.Constant) and isinstance(e.value, str) for e in n.elts):
@@ -267,15 +294,43 @@ def get(mod, name):
         return None
 
 
+PERTURB = bool(os.environ.get("VERIF_EXTRACT_PERTURB"))     # classification run of harness/pin_soft.py: body literals get a sentinel
+
+
 def func_literals(mod, qualname: str):
     """All int/bytes/str constants in the body of a function, in source order."""
+    return _func_literals(mod, qualname)
+
+
+class _Perturb(ast.NodeTransformer):
+    """classification run: every literal of a function body is changed (ints + 77777, bytes / str get a BEL appended)"""
+
+    def visit_Constant(self, node):
+        v = node.value
+        if isinstance(v, bool) or v is None:
+            return node
+        if isinstance(v, int):
+            return ast.copy_location(ast.Constant(value=v + 77777), node)
+        if isinstance(v, bytes):
+            return ast.copy_location(ast.Constant(value=v + b"\x07"), node)
+        if isinstance(v, str):
+            return ast.copy_location(ast.Constant(value=v + "\x07"), node)
+        return node
+
+
+def _body_ast(src: str):
+    tree = ast.parse(src)
+    return _Perturb().visit(tree) if PERTURB else tree
+
+
+def _func_literals(mod, qualname: str):
     try:
         obj = mod
         for part in qualname.split("."):
             obj = getattr(obj, part)
         src = inspect.getsource(obj)
         import textwrap
-        tree = ast.parse(textwrap.dedent(src))
+        tree = _body_ast(textwrap.dedent(src))
     except Exception as e:  # noqa
         problems.append(f"{mod.__name__}.{qualname}: cannot read source: {e}")
         return []
@@ -289,12 +344,16 @@ def func_literals(mod, qualname: str):
 
 def func_slices(mod, qualname: str):
     """constant bounds of every `x[a:b]` subscript in a function body, in source order, flattened"""
+    return _func_slices(mod, qualname)
+
+
+def _func_slices(mod, qualname: str):
     try:
         obj = mod
         for part in qualname.split("."):
             obj = getattr(obj, part)
         import textwrap
-        tree = ast.parse(textwrap.dedent(inspect.getsource(obj)))
+        tree = _body_ast(textwrap.dedent(inspect.getsource(obj)))
     except Exception as e:  # noqa
         problems.append(f"{mod.__name__}.{qualname}: cannot read source: {e}")
         return []
@@ -311,11 +370,15 @@ def func_slices(mod, qualname: str):
 
 def plain_str_literals(mod, qualname: str):
     """str constants of a function body in source order, without the docstring and without the literal parts of f-strings"""
+    return _plain_str_literals(mod, qualname)
+
+
+def _plain_str_literals(mod, qualname: str):
     import textwrap
     obj = mod
     for part in qualname.split("."):
         obj = getattr(obj, part)
-    tree = ast.parse(textwrap.dedent(inspect.getsource(obj)))
+    tree = _body_ast(textwrap.dedent(inspect.getsource(obj)))
     fn = tree.body[0]
     skip = set()
     if getattr(fn, "body", None) and isinstance(fn.body[0], ast.Expr) and isinstance(fn.body[0].value, ast.Constant) and isinstance(fn.body[0].value.value, str):
@@ -336,7 +399,7 @@ def path_arguments(mod, qualname: str, env: dict):
     obj = mod
     for part in qualname.split("."):
         obj = getattr(obj, part)
-    tree = ast.parse(textwrap.dedent(inspect.getsource(obj)))
+    tree = _body_ast(textwrap.dedent(inspect.getsource(obj)))
     out = []
     env = dict(env)
     for n in ast.walk(tree):          # simple local constants (`ns = self.X`) the path expressions may refer to
@@ -644,7 +707,7 @@ def main() -> int:
 
         def _src_tree(obj):
             obj = getattr(obj, "func", obj)            # cached_property
-            return ast.parse(textwrap.dedent(inspect.getsource(obj)))
+            return _body_ast(textwrap.dedent(inspect.getsource(obj)))
 
         def _ints(tree):
             out = [(n.lineno, n.col_offset, n.value) for n in ast.walk(tree)
@@ -724,7 +787,7 @@ def main() -> int:
                 obj = getattr(obj, part)
             obj = getattr(obj, "fget", obj)
             out = []
-            for node in ast.walk(ast.parse(textwrap.dedent(inspect.getsource(obj)))):
+            for node in ast.walk(_body_ast(textwrap.dedent(inspect.getsource(obj)))):
                 if isinstance(node, ast.Constant) and isinstance(node.value, (int, str)) and not isinstance(node.value, bool):
                     out.append((node.lineno, node.col_offset, node.value))
             out.sort(key=lambda t: (t[0], t[1]))
@@ -758,7 +821,7 @@ def main() -> int:
                 obj = getattr(obj, part)
             obj = getattr(obj, "fget", obj)          # properties
             obj = getattr(obj, "__func__", obj)      # classmethods
-            return ast.parse(textwrap.dedent(inspect.getsource(obj)))
+            return _body_ast(textwrap.dedent(inspect.getsource(obj)))
 
         def _vmx_strs(qualname):
             """the short string constants of a function body (keywords, dictionary keys, separators; messages and
@@ -879,7 +942,7 @@ def main() -> int:
             obj = mod
             for part in qn.split("."):
                 obj = getattr(obj, part)
-            tree = ast.parse(textwrap.dedent(inspect.getsource(obj)))
+            tree = _body_ast(textwrap.dedent(inspect.getsource(obj)))
             fn = tree.body[0]
             if ast.get_docstring(fn) is not None:
                 fn.body = fn.body[1:]
@@ -985,6 +1048,10 @@ def main() -> int:
     text = "\n".join(w.lines) + "\n"
     old = OUT.read_text() if OUT.exists() else None
     changed = old != text
+    if PERTURB:                       # classification run: nothing but the values file is written
+        Path(os.environ["VERIF_VALUES_FILE"]).write_text(json.dumps(w.rec, indent=0, sort_keys=True, default=str))
+        print(json.dumps({"changed": False, "problems": problems, "perturbed": True}))
+        return 0
     if changed:
         tmp = OUT.with_suffix(".lean.tmp%d" % os.getpid())
         tmp.write_text(text)
@@ -993,6 +1060,8 @@ def main() -> int:
                       "sha256": hashlib.sha256(text.encode()).hexdigest(),
                       "n_values": len(w.fp)}))
     (HERE.parent / "lean" / "Hv" / "Extracted.fingerprint.json").write_text(json.dumps(w.fp, indent=0, sort_keys=True, default=str))
+    vf = os.environ.get("VERIF_VALUES_FILE") or str(HERE.parent / "lean" / "Hv" / "Extracted.values.json")
+    Path(vf).write_text(json.dumps(w.rec, indent=0, sort_keys=True, default=str))
     return 0
 
 
